@@ -13,7 +13,7 @@ mod=$wt/gnark-plonky2-verifier
 cd $wt && git checkout -q -- . 2>/dev/null
 demo=$wt/out/demo${k}_test.go
 place=$(head -6 $demo | grep -o -m1 'gnark-plonky2-verifier/[^ ]*_test\.go' | head -1)
-runline=$(head -6 $demo | grep -m1 'go test' | sed -E 's/.*(go test[^()]*).*/\1/' | sed -E 's/ *\(.*$//' | sed -E 's/ *\\$//')
+runline=$(head -6 $demo | grep -m1 'go test' | grep -oE '([A-Z_0-9]+=[^ ]+ +)*go test[^()]*' | head -1 | sed -E 's/ *\\$//')
 [ -z "$place" ] && { echo "cannot parse demo placement"; exit 2; }
 log=$out/verify.log; : > $log
 git apply $wt/out/change$k.diff || { echo "patch does not apply" | tee -a $log; exit 2; }
